@@ -23,6 +23,7 @@ import (
 	ae "github.com/godaddy/asherah/go/appencryption"
 	"github.com/godaddy/asherah/go/appencryption/pkg/crypto/aead"
 	"github.com/godaddy/asherah/go/appencryption/pkg/persistence"
+	depkms "github.com/godaddy/asherah/go/appencryption/pkg/kms"
 	pv1 "github.com/godaddy/asherah/go/appencryption/plugins/aws-v1/kms"
 	pv2 "github.com/godaddy/asherah/go/appencryption/plugins/aws-v2/kms"
 
@@ -265,6 +266,31 @@ func buildPlugin(ver string, c *cloud, regions []string, preferred string) (kmsP
 		}
 		return pv1.VerifNewAWS(crypto, preferred, clients)
 	}
+	if ver == "v1pub" || ver == "v1dep" {
+		// through the public constructor (the plugin's own region -> ARN client construction and ordering), the network
+		// clients it built replaced by the fakes; "v1dep" goes through the deprecated forwarder in pkg/kms
+		arn := map[string]string{}
+		for _, r := range regions {
+			arn[r] = arnOf(r)
+		}
+		var p *pv1.AWSKMS
+		var err error
+		if ver == "v1dep" {
+			p, err = depkms.NewAWS(crypto, preferred, arn)
+		} else {
+			p, err = pv1.NewAWS(crypto, preferred, arn)
+		}
+		if err != nil {
+			return nil, err
+		}
+		for i := range p.Clients {
+			if p.Clients[i].ARN != arnOf(p.Clients[i].Region) {
+				return nil, fmt.Errorf("VIOLATION-IN-CONSTRUCTION: the client of region %s was built with key %s", p.Clients[i].Region, p.Clients[i].ARN)
+			}
+			p.Clients[i].KMS = fakeV1{c, p.Clients[i].Region}
+		}
+		return p, nil
+	}
 	arn := map[string]string{}
 	for _, r := range regions {
 		arn[r] = arnOf(r)
@@ -302,15 +328,23 @@ func awsSpace(r *Report, prop string, maxN int) {
 	for n := 1; n <= maxN; n++ {
 		regions := c17Regions[:n]
 		for _, preferred := range regions {
-			for _, pair := range [][2]string{{"v1", "v1"}, {"v2", "v2"}, {"v1", "v2"}, {"v2", "v1"}} {
+			for _, pair := range [][2]string{{"v1", "v1"}, {"v2", "v2"}, {"v1", "v2"}, {"v2", "v1"}, {"v1pub", "v1dep"}} {
 				c := newCloud()
 				wrapper, err := buildPlugin(pair[0], c, regions, preferred)
 				if err != nil {
+					if strings.Contains(err.Error(), "VIOLATION-IN-CONSTRUCTION") {
+						fail("C17", "client-built-with-foreign-key", fmt.Sprintf("n=%d preferred=%s %s", n, preferred, pair[0]), "%v", err)
+						continue
+					}
 					r.MachineryError = fmt.Sprintf("building %s plugin: %v", pair[0], err)
 					return
 				}
 				unwrapper, err := buildPlugin(pair[1], c, regions, preferred)
 				if err != nil {
+					if strings.Contains(err.Error(), "VIOLATION-IN-CONSTRUCTION") {
+						fail("C17", "client-built-with-foreign-key", fmt.Sprintf("n=%d preferred=%s %s", n, preferred, pair[1]), "%v", err)
+						continue
+					}
 					r.MachineryError = fmt.Sprintf("building %s plugin: %v", pair[1], err)
 					return
 				}
